@@ -7,12 +7,15 @@ func init() {
 		ID:         "C13",
 		Level:      "other",
 		Technique:  "forward CFG search for dead error stores + RuneError/size conjunction rule + coder-table UTF-8 conformance (static)",
-		Explain:    "Decides structural necessary conditions of C13: (1) no error produced by a codec function (in particular errInvalidUTF8 from a validating coder) is overwritten or dropped before being read; (2) every `r == utf8.RuneError` test on a DecodeRune* result is conjoined with size == 1, so valid U+FFFD is not confused with invalid UTF-8; (3) coder selection and validation-type selection use strs.EnforceUTF8 consistently and every ValidateUTF8 coder tests validity on both the append and the consume side.",
-		NotCovered: "that utf8.Valid is the right predicate (trusted std); acceptance of all valid UTF-8 on concrete values.",
+		Explain:    "Decides structural necessary conditions of C13: (1) no error produced by a codec function (in particular errInvalidUTF8 from a validating coder) is overwritten or dropped before being read; (2) every `r == utf8.RuneError` test on a DecodeRune* result is conjoined with size == 1, so valid U+FFFD is not confused with invalid UTF-8; (3) in fieldCoder UTF-8 validating coders are installed exactly where strs.EnforceUTF8(fd) holds and plain string coders of StringKind fields only where it does not; every coder literal validates UTF-8 on both the marshal and the unmarshal side or on neither; (4) every StringKind branch of the reflection codec and of prototext rejects invalid UTF-8 under strs.EnforceUTF8(fd).",
+		NotCovered: "the validator's per-field validation types (validate.go) and map key/value coders of encoderFuncsForValue; protojson's string path (the JSON tokenizer rejects invalid UTF-8 unconditionally, C21); that utf8.Valid is the right predicate (trusted std); acceptance of all valid UTF-8 on concrete values.",
 		Quick:      all("./proto", "./internal/impl", "./encoding/protojson", "./encoding/prototext"),
 		Thorough:   all("./..."),
 		Run: func(c *Ctx) {
 			c.ruleErrDeadStore("R-ERR-DEAD-STORE", codecPkgs, nil, 100)
+			c.ruleCoderRow("R-CODER-ROW", 100)
+			c.ruleCoderSelect("R-CODER-SELECT", 60)
+			c.ruleUTF8Slow("R-UTF8-SLOW", 3)
 			c.ruleRuneErrorSize("R-RUNEERROR-SIZE", []string{"internal/encoding/json", "internal/encoding/text", "internal/strs", "encoding/protojson", "encoding/prototext"}, 4)
 		},
 	})
